@@ -12,7 +12,7 @@
    keyset/validation.go Validate, validateKey       validate, validate_key
    keyset/handle.go keysetToEntries/newFromEntries  to_entries / new_from_entries
    */*/protoserialization.go ParseKey + key.go      parse_key (16 key types of the first round),
-                                                    parse_key_more (21 more: Ed25519 pub/priv, RSA-SSA-PKCS1/PSS
+                                                    parse_key_more (23 more: Ed25519 pub/priv, RSA-SSA-PKCS1/PSS
                                                     priv, ECIES pub/priv, HPKE pub/priv, the two streaming AEAD
                                                     keys, JWT HMAC / ECDSA pub+priv / RSA-PKCS1+PSS pub+priv /
                                                     ML-DSA pub, ML-DSA pub, SLH-DSA pub/priv), then the fallback key
@@ -332,6 +332,9 @@ Definition validate (ks : option keyset) : bool :=
    shake256 m n            sha3.SHAKE256 of m, n bytes of output
    rsa_crt n e d p q       rsa.PrivateKey{N,E,D,Primes:{p,q}}.Validate() succeeds; after Precompute():
                            Precomputed.Dp.Bytes(), Dq.Bytes(), Qinv.Bytes()
+   mldsa_pub inst seed     internal/signature/mldsa KeyGenFromSeed(seed).Encode() of the public key for a 32-byte
+                           seed (inst = proto MlDsaInstance: 1 = ML-DSA-65, 2 = ML-DSA-87, 3 = ML-DSA-44); NOT the Go
+                           standard library: answered by the library's own key generation, trusted for this function
    rsa_selfcheck pss hash salt n e d p q
                            signing "Tink and Wycheproof." with the key (PKCS1v15 or PSS with that salt
                            length) succeeds and the signature verifies under (n, e) *)
@@ -342,7 +345,8 @@ Record stdlib := mkStd {
   mlkem_pub : N -> bytes -> option bytes;
   shake256 : bytes -> nat -> bytes;
   rsa_crt : bytes -> N -> bytes -> bytes -> bytes -> option (bytes * bytes * bytes);
-  rsa_selfcheck : bool -> N -> N -> bytes -> N -> bytes -> bytes -> bytes -> bool
+  rsa_selfcheck : bool -> N -> N -> bytes -> N -> bytes -> bytes -> bytes -> bool;
+  mldsa_pub : N -> bytes -> bytes
 }.
 
 Section Keys.
@@ -387,6 +391,8 @@ Definition u_slhdsa_priv : bytes := Eval vm_compute in bytes_of_string url_slhds
 Definition u_jwt_rsa_pkcs1_priv : bytes := Eval vm_compute in bytes_of_string url_jwt_rsa_pkcs1_priv.
 Definition u_jwt_rsa_pss_priv : bytes := Eval vm_compute in bytes_of_string url_jwt_rsa_pss_priv.
 Definition u_jwt_mldsa_pub : bytes := Eval vm_compute in bytes_of_string url_jwt_mldsa_pub.
+Definition u_mldsa_priv : bytes := Eval vm_compute in bytes_of_string url_mldsa_priv.
+Definition u_jwt_mldsa_priv : bytes := Eval vm_compute in bytes_of_string url_jwt_mldsa_priv.
 Definition u_c13_outside : list bytes := Eval vm_compute in map bytes_of_string c13_outside_urls.
 Definition u_unmodelled : list bytes := Eval vm_compute in map bytes_of_string unmodelled_urls.
 
@@ -448,6 +454,8 @@ Inductive pkd :=
 | PJwtMlDsaPub
 | PMlDsaPub
 | PSlhDsa (private : bool)
+| PMlDsaPriv
+| PJwtMlDsaPriv
 | PFallback (private : bool).
 
 Definition okb (c : bool) (d : pkd) : outcome pkd := if c then Ok d else Err.
@@ -968,6 +976,56 @@ Definition parse_mldsa_pub (kd : keydata) (prefix idreq : N) : outcome pkd :=
            else if inst =? mldsa_87 then kl =? mldsa87_pub_size else false))
       PMlDsaPub.
 
+(* ---- ML-DSA private key: signature/mldsa/{protoserialization,key,signer}.go ----
+   MlDsaPrivateKey { version = 1; key_value = 2 (the 32-byte seed); public_key = 3 }.
+   variantFromProto, instanceFromProto, NewParameters, NewPublicKey (id requirement,
+   key length), then NewPrivateKeyWithPublicKey: seed length, key generation from the
+   seed, comparison with the public key. *)
+Definition mldsa_pub_len_ok (inst kl : N) : bool :=
+  if inst =? mldsa_44 then kl =? mldsa44_pub_size
+  else if inst =? mldsa_65 then kl =? mldsa65_pub_size
+  else if inst =? mldsa_87 then kl =? mldsa87_pub_size else false.
+
+Definition sch_mldsa_priv := Sch [(3, Sch [(3, Sch [] [])] [])] [].      (* public_key = 3 { params = 3 } *)
+
+Definition parse_mldsa_priv (kd : keydata) (prefix idreq : N) : outcome pkd :=
+  let v := kd_value kd in
+  let fs := fields_or_nil v in
+  if negb (kd_mat kd =? km_private) then Err else
+  if negb (wire_ok sch_mldsa_priv v) then Err else
+  let pub := get_sub 3 fs in
+  let inst := get_u32 1 (get_sub 3 pub) in
+  let seed := get_len 2 fs in
+  if negb ((get_u32 1 fs =? 0)
+           && ((prefix =? pt_tink) || (prefix =? pt_raw) || (prefix =? pt_with_id_requirement))
+           && (get_u32 1 pub =? 0)
+           && (negb (prefix =? pt_raw) || (idreq =? 0))
+           && mldsa_pub_len_ok inst (blen (get_len 2 pub))) then Err
+  else if negb (blen seed =? mldsa_seed_size) then Err
+  else if beq (mldsa_pub L inst seed) (get_len 2 pub) then Ok PMlDsaPriv else Err.
+
+(* JwtMlDsaPrivateKey { version = 1; key_value = 2; public_key = 3 { version; algorithm = 2;
+   key_value = 3; custom_kid = 4 } }: publicKeyFromProto, then NewPrivateKeyFromPublicKey *)
+Definition sch_jwt_mldsa_priv := Sch [(3, Sch [(4, Sch [] [1])] [])] [].
+
+Definition jwt_mldsa_instance (alg : N) : N :=
+  if alg =? jwt_mldsa_44 then mldsa_44 else if alg =? jwt_mldsa_65 then mldsa_65 else mldsa_87.
+
+Definition parse_jwt_mldsa_priv (kd : keydata) (prefix idreq : N) : outcome pkd :=
+  let v := kd_value kd in
+  let fs := fields_or_nil v in
+  if negb (kd_mat kd =? km_private) then Err else
+  if negb (wire_ok sch_jwt_mldsa_priv v) then Err else
+  let pub := get_sub 3 fs in
+  let alg := get_u32 2 pub in
+  let seed := get_len 2 fs in
+  if negb ((get_u32 1 fs =? 0) && (get_u32 1 pub =? 0)
+           && jwt_kid_ok prefix idreq (has_sub 4 pub)
+           && ((alg =? jwt_mldsa_44) || (alg =? jwt_mldsa_65) || (alg =? jwt_mldsa_87))
+           && mldsa_pub_len_ok (jwt_mldsa_instance alg) (blen (get_len 3 pub))) then Err
+  else if negb (blen seed =? mldsa_seed_size) then Err
+  else if beq (mldsa_pub L (jwt_mldsa_instance alg) seed) (get_len 3 pub) then Ok PJwtMlDsaPriv else Err.
+
 (* ---- SLH-DSA: signature/slhdsa/{protoserialization,key,signer,verifier}.go,
    internal/signature/slhdsa DecodeSecretKey ---- *)
 (* hashTypeFromProto, signatureTypeFromProto, NewParameters (the 12 supported
@@ -1040,6 +1098,8 @@ Definition parse_key_more (kd : keydata) (prefix idreq : N) : outcome pkd :=
   else if url_is kd u_mldsa_pub then parse_mldsa_pub kd prefix idreq
   else if url_is kd u_slhdsa_pub then parse_slhdsa_pub kd prefix idreq
   else if url_is kd u_slhdsa_priv then parse_slhdsa_priv kd prefix idreq
+  else if url_is kd u_mldsa_priv then parse_mldsa_priv kd prefix idreq
+  else if url_is kd u_jwt_mldsa_priv then parse_jwt_mldsa_priv kd prefix idreq
   else okb (known_prefix prefix) (PFallback (kd_mat kd =? km_private)).
 
 (* protoserialization.ParseKey: the parser registered for the type URL, or
@@ -1254,6 +1314,8 @@ Definition prim_ok (d : pkd) : outcome bool :=
   | PJwtMlDsaPub => Ok true
   | PMlDsaPub => Ok true
   | PSlhDsa _ => Ok true
+  | PMlDsaPriv => Ok true            (* mldsa.NewSigner: the expanded key of the seed *)
+  | PJwtMlDsaPriv => Ok true         (* createJWTMLDSASigner: mldsa.NewPrivateKey(seed) + NewSigner *)
   | PFallback _ => Ok false
   end.
 
@@ -1263,7 +1325,7 @@ Definition more_material (d : pkd) : N :=
   match d with
   | PEd25519Pub => km_public
   | PEd25519Priv _ | PRsaPriv _ _ _ _ _ | PEcies true _ _ _ | PHpke true _
-  | PJwtEcdsa true _ _ | PSlhDsa true | PJwtRsaPriv _ _ _ _ _ _ _ _ => km_private
+  | PJwtEcdsa true _ _ | PSlhDsa true | PJwtRsaPriv _ _ _ _ _ _ _ _ | PMlDsaPriv | PJwtMlDsaPriv => km_private
   | PEcies false _ _ _ | PHpke false _ | PJwtEcdsa false _ _ | PJwtRsaPub _ _ _ | PMlDsaPub | PSlhDsa false
   | PJwtMlDsaPub => km_public
   | PStreamGcmHkdf _ _ _ | PStreamCtrHmac _ _ _ _ _ | PJwtHmac _ _ => km_symmetric
@@ -1284,7 +1346,8 @@ Definition modelled_url (kd : keydata) : bool :=
   || url_is kd u_jwt_ecdsa_pub || url_is kd u_jwt_ecdsa_priv
   || url_is kd u_jwt_rsa_pkcs1_pub || url_is kd u_jwt_rsa_pss_pub
   || url_is kd u_mldsa_pub || url_is kd u_slhdsa_pub || url_is kd u_slhdsa_priv
-  || url_is kd u_jwt_rsa_pkcs1_priv || url_is kd u_jwt_rsa_pss_priv || url_is kd u_jwt_mldsa_pub.
+  || url_is kd u_jwt_rsa_pkcs1_priv || url_is kd u_jwt_rsa_pss_priv || url_is kd u_jwt_mldsa_pub
+  || url_is kd u_mldsa_priv || url_is kd u_jwt_mldsa_priv.
 Definition unmodelled_url (kd : keydata) : bool :=
   existsb (fun u => url_is kd u) u_unmodelled.
 (* outside the 16 key types C13 (model/Secrets.v) was built on *)
